@@ -131,6 +131,9 @@ package updater
 //@   at after filepath.Join#1 ghost j = ret0
 //@   at call copyFromZipArchive assert arg1 == j
 //@   at call copyFromZipArchive assert inside(tmp, arg1)
+// no directory is ensured for a name that has not passed the containment check: the only
+// directories created here are the temporary directory, paths inside it, and the destination
+//@   at call (*DirStructure).EnsureAbsPath assert arg1 == dest || inside(tmp, arg1)
 //@   at call os.Rename assert arg0 == tmp && arg1 == dest
 
 //@ func copyFromZipArchive
